@@ -351,6 +351,8 @@ def generate(rng, tier, scale=1):
                             kw = {"malformed": "range"} if bad and (pos < n or n % size) else {}
                             if fmt in "lL" and order in STD_ORDERS and bad:
                                 kw = {"malformed": "range"}
+                            if k % 5 == 0:
+                                kw["shape"] = "entry"
                             for strategy in ("struct", "array"):
                                 cases.append(chunk_case(fmt, order, size, xs, pad, strategy, extreme=pos, **kw))
     nrand = (1500 if quick else 12000) * scale
@@ -611,8 +613,11 @@ def impl_chunks(c):
     from audiolazy import chunks, Stream
     f = chunks.struct if c["strategy"] == "struct" else chunks.array
     shape = c.get("shape", "kw")
-    if shape == "entry" and c["strategy"] == "struct" and getattr(chunks, "default", None) is chunks.struct:
-        f = chunks                                   # the StrategyDict itself: its default strategy
+    old_default = chunks.default
+    if shape == "entry":
+        # the StrategyDict itself, with `chunks.default` pointing to the strategy of the case (the docstring's
+        # hint `chunks.default = chunks.array`); restored below
+        f = chunks
     xs = [j2v(x) for x in c["xs"]]
     sr = c.get("seq_route")
     counted = None
@@ -631,6 +636,8 @@ def impl_chunks(c):
     old = chunks.size
     out, raw, err, msg = [], [], None, None
     try:
+        if shape == "entry":
+            chunks.default = chunks.struct if c["strategy"] == "struct" else chunks.array
         if c.get("size_route") == "default":
             chunks.size = c["size"]
         else:
@@ -654,6 +661,7 @@ def impl_chunks(c):
             err, msg = _kind(e), str(e)[:100]
     finally:
         chunks.size = old
+        chunks.default = old_default
     # the chunks are read again once the generator is finished (what b"".join(chunks(...)) sees)
     aliased = any(list(bytes(r)) != o for r, o in zip(raw, out))
     o = {"out": out, "err": err, "msg": msg, "aliased": aliased}
@@ -778,7 +786,7 @@ def request(c):
         # the byte order goes to the model AS SPELLED (omit / None / "@" / "=" / "<" / ">" / "!"): what it means
         # (OrderArg.order, OrderArg.std, resolveOrder) is the model's business (theorem byte_order_spellings)
         return {"entry": "chunks", "fmt": c["fmt"], "native": NATIVE, "order": c["order"], "long": LONG,
-                "size": c["size"], "pad": c["pad"], "xs": c["xs"]}
+                "size": c["size"], "pad": c["pad"], "xs": c["xs"], "default": c["strategy"]}
     if c["entry"] == "wavcall":
         return {"entry": "wavcall", "bits": c["bits"], "channels": c["channels"], "rate": c["rate"],
                 "data": list(pcm_bytes(c["bits"], c["samples"])), "pos": c["pos"], "kw": [{"k": k, "v": v} for k, v in c["kw"]]}
@@ -825,7 +833,8 @@ def compare(c, io_, drv):
         if io_.get("aliased"):
             out.append(("spec", "a chunk of chunks.%s changed after it was yielded (the generator reuses the "
                         "object it yields)" % c["strategy"]))
-        m = drv[c["strategy"]]
+        # through the StrategyDict entry the model is chunksEntry with chunks.default = the case's strategy
+        m = drv["dict_entry"] if c.get("shape") == "entry" else drv[c["strategy"]]
         sp = drv["spec"] if c["strategy"] == "struct" else drv["spec_array"]
         if io_["out"] != m["out"] or io_["err"] != m["err"]:
             out.append(("model", "chunks.%s differs from the model: impl=%s/%s model=%s/%s" % (
@@ -954,6 +963,8 @@ def tally(eng, c, io_):
             if c.get(k):
                 eng.count("chunks.route", k + "=" + c[k])
         eng.count("chunks.call_shape", c.get("shape", "kw"))
+        if c.get("shape") == "entry":
+            eng.count("chunks.dict_entry(chunks.default)", c["strategy"])
         if "extreme" in c:
             eng.count("chunks.extreme_position", "pad" if c["extreme"] == len(c["xs"]) else
                       "whole-chunk" if c["extreme"] < len(c["xs"]) // c["size"] * c["size"] else "partial-tail")
